@@ -91,7 +91,30 @@ def cond(a):
 
 
 # ------------------------------------------------------------------ generators
+CHI2_ATTRS = ['acoeff', 'chi2', 'yfit', 'dof', 'covar', 'var']
+PCOMP_ATTRS = ['eigenvalues', 'coefficients', 'derived', 'variance']
+
+
+def read_orders(rng, names, fixed, nrandom):
+    """orders in which the attributes of a FRESH object are read (the first, canonical order is added by the runner)"""
+    out = [list(o) for o in fixed]
+    for _ in range(nrandom):
+        o = list(names)
+        rng.shuffle(o)
+        out.append(o)
+    return out
+
+
 def gen_chi2(ctx):
+    calls = gen_chi2_systems(ctx)
+    for _, c in calls:
+        c['orders'] = read_orders(ctx.rng, CHI2_ATTRS, [['covar', 'var', 'acoeff', 'yfit', 'chi2', 'dof'],
+                                                       ['var', 'yfit', 'covar', 'chi2', 'dof', 'acoeff'],
+                                                       ['dof', 'chi2', 'covar', 'acoeff', 'var', 'yfit']], 3)
+    return calls
+
+
+def gen_chi2_systems(ctx):
     rng = ctx.rng
     calls = []
     while len(calls) < ctx.n(30, 800):
@@ -183,8 +206,10 @@ def gen_pcomp(ctx):
         if not rankdef and cond(Cm) > 1e6:
             continue
         k += 1
+        orders = read_orders(rng, PCOMP_ATTRS, [['derived', 'variance', 'coefficients', 'eigenvalues']], 2)
         calls.append(('pcomp-%s-%s%s' % ('std' if st else 'raw', 'cov' if cv else 'corr', '-rankdef' if rankdef else ''),
-                      {'f': 'pcomp', 'x': x, 'standardize': st, 'covariance': cv, '_sd0': sd0 if st else [], '_sdc': [] if cv else sdc}))
+                      {'f': 'pcomp', 'x': x, 'standardize': st, 'covariance': cv, '_sd0': sd0 if st else [], '_sdc': [] if cv else sdc,
+                       'orders': orders}))
     return calls
 
 
@@ -273,9 +298,16 @@ def gen_pca(ctx):
         nkeep = rng.randint(1, 2)
         flux = lowrank(rng, nobj, npix, 2, positive=True, noise=0.05)
         ivar = [[(0.0 if rng.random() < 0.2 else dy(rng, 0.5, 2, 1)) for _ in range(npix)] for _ in range(nobj)]
+        tag = 'pca'
+        if len(calls) % 3 == 1:
+            # input class: a pixel (or two) with zero inverse variance in EVERY spectrum
+            for j in rng.sample(range(npix), rng.choice([1, 1, 2])):
+                for r in ivar:
+                    r[j] = 0.0
+            tag = 'pca-deadpixel'
         if any(sum(1 for v in r if v > 0) < nkeep + 2 for r in ivar):
             continue
-        calls.append(('pca', {'f': 'pca', 'flux': flux, 'ivar': ivar, 'nkeep': nkeep, 'niter': rng.randint(1, 3), 'maxiter': 0}))
+        calls.append((tag, {'f': 'pca', 'flux': flux, 'ivar': ivar, 'nkeep': nkeep, 'niter': rng.randint(1, 3), 'maxiter': 0}))
     return calls
 
 
@@ -345,6 +377,8 @@ def check_solve(c, o):
         return bad
     if not o['identical']:
         bad.append(('seed-not-reproducible', 'two runs with seed=%d differ' % c['seed']))
+    for h in o.get('history_dependent', []):
+        bad.append(('history-dependent', 'seed=%d, same data: the result of [%s] differs from create-and-solve-at-once' % (c['seed'], h)))
     if not c['nonnegative'] and not o['inputs_unchanged']:
         bad.append(('inputs-modified', "default mode modified the caller's spectra/invvar arrays"))
     if c['nonnegative'] and (o['min_a'] < 0 or o['min_g'] < 0):
@@ -390,6 +424,21 @@ def correspond(ctx, proof_ok=True):
             for slug, text in check_solve(c, r['ok']):
                 direct.append(('C15:hmf_solve:%s' % slug, text, {'kind': 'failing-input', 'call': public(c), 'impl_result': r}))
             continue
+        o_ = r['ok']
+        if o_.get('args_changed'):
+            direct.append(('C15:%s:argument-modified' % c['f'], '%s modified its argument(s) %s' % (tag, o_['args_changed']),
+                           {'kind': 'failing-input', 'call': public(c), 'impl_result': r}))
+        if o_.get('order_dependent'):
+            nd += 1
+            d0 = o_['order_dependent'][0]
+            direct.append(('C15:%s:order-dependent' % c['f'],
+                           'attribute %s of a fresh %s object depends on the order in which the attributes are read: order %s differs '
+                           'from the canonical order by %s' % (d0['attr'], c['f'], d0['order'], d0['maxdiff']),
+                           {'kind': 'failing-input', 'call': public(c), 'history': d0['order'], 'attribute': d0['attr'],
+                            'all_orders_that_differ': o_['order_dependent'], 'impl_result': r}))
+        if c['f'] == 'pca' and not o_.get('repeatable', True):
+            direct.append(('C15:pca:not-repeatable', 'the same pca_solve call on fresh copies gave another answer after the first '
+                           'result was edited in place', {'kind': 'failing-input', 'call': public(c), 'impl_result': r}))
         if c['f'] == 'hmf_step' and not r['ok'].get('state_unchanged', True):
             direct.append(('C15:hmf_step:state-modified', 'a step function modified the HMF state or the input arrays',
                            {'kind': 'failing-input', 'call': public(c), 'impl_result': r}))
